@@ -85,6 +85,7 @@ class Vocab:
         self.POS = z3.Function("POS", RS, INT)
         self.REM = z3.Function("REM", RS, INT)
         self.TOT = z3.Function("TOT", RS, INT)
+        self.CSR = z3.Function("CSR", RS, INT)      # len(data) - chunk_start
         self.SETCH = z3.Function("SETCH", RS, BOOL, RS)
         self.SKIP = z3.Function("SKIP", RS, INT, RS)
         self.NEXT = z3.Function("NEXT", RS, RS)
@@ -141,32 +142,50 @@ class Vocab:
         ex.fact(z3.Implies(n <= 0, t == EMPTY))
         return t
 
-    # reader transformers with their ground facts (restated C05 contracts)
+    # reader transformers with their ground facts: contracts.spec.RA_* evaluated on the observations of
+    # the two states (the same texts are proved over the C05 contracts in lemmas.reader_algebra and
+    # evaluated on the real EoReader in checks.extras.reader_algebra)
+    def obs(self, s):
+        return [self.CH(s), self.POS(s), self.REM(s), self.TOT(s), self.CSR(s)]
+
+    def lex_le(self, t, s):
+        """reader measure (data beyond the chunk start, data beyond the position) of t <= that of s"""
+        return z3.Or(self.CSR(t) < self.CSR(s), z3.And(self.CSR(t) == self.CSR(s), self.TOT(t) <= self.TOT(s)))
+
+    def lex_lt(self, t, s):
+        return z3.Or(self.CSR(t) < self.CSR(s), z3.And(self.CSR(t) == self.CSR(s), self.TOT(t) < self.TOT(s)))
+
+    def ra(self, ex, name, *args):
+        from .exec import Frame
+        from . import repo
+        fi = repo.load_module("contracts.spec").functions[name]
+        env = dict(zip(fi.params, args))
+        v = ex.spec_call(fi, env, Frame(None, fi.module, {}, spec=True))
+        return ex.truth(v)
+
     def skip(self, ex, s, n):
         t = self.SKIP(s, n)
-        k = z3.If(n < self.REM(s), n, self.REM(s))
-        ex.fact(z3.Implies(n >= 0, z3.And(self.CH(t) == self.CH(s), self.POS(t) == self.POS(s) + k,
-                                          self.REM(t) == self.REM(s) - k, self.TOT(t) == self.TOT(s) - k)))
+        ex.fact(z3.Implies(n >= 0, self.ra(ex, "RA_SKIP", n, *(self.obs(s) + self.obs(t)))))
         return t
 
     def setch(self, ex, s, b):
         t = self.SETCH(s, b)
-        ex.fact(z3.And(self.CH(t) == b, self.POS(t) == self.POS(s), self.TOT(t) == self.TOT(s),
-                       self.REM(t) >= 0, self.REM(t) <= self.TOT(t)))
+        ex.fact(self.ra(ex, "RA_SETCH", b, *(self.obs(s) + self.obs(t))))
         ex.fact(z3.Implies(self.CH(s) == b, t == s))           # setting the mode it already has changes nothing
         return t
 
     def next(self, ex, s):
         t = self.NEXT(s)
-        # next_chunk (requires chunked mode): position moves to just past the current chunk's break or
-        # to the end: never backwards past what remained, mode kept
-        ex.fact(z3.And(self.CH(t) == self.CH(s), self.REM(t) >= 0, self.REM(t) <= self.TOT(t),
-                       self.TOT(t) >= 0, self.TOT(t) <= self.TOT(s) - self.REM(s),
-                       z3.Implies(self.TOT(s) - self.REM(s) > 0, self.TOT(t) < self.TOT(s) - self.REM(s) + 0 + 1)))
+        ex.fact(self.ra(ex, "RA_NEXT", *(self.obs(s) + self.obs(t))))
         return t
 
+    def state_ok(self, ex, s):
+        return self.ra(ex, "RA_STATE", self.CH(s), self.REM(s), self.TOT(s), self.CSR(s))
+
     def state_facts(self, ex, s):
-        ex.fact(z3.And(self.REM(s) >= 0, self.REM(s) <= self.TOT(s)))
+        # 0 <= REM <= TOT; chunk start <= position (class invariant of EoReader, C05), hence data remaining
+        # in the current chunk implies data beyond the chunk start
+        ex.fact(self.ra(ex, "RA_STATE", self.CH(s), self.REM(s), self.TOT(s), self.CSR(s)))
 
 
 # ---------------------------------------------------------------- class model derived from the XML
@@ -556,14 +575,14 @@ class GenExec(Exec):
             return v
         if name == "add_byte":
             v = intarg()
-            if self.branch(v > 255):
+            if self.branch(V.ra(self, "WA_INT_RAISES", I(0), v)):
                 raise PyExc("ValueError", node)
             append(V.enc(self, v, "byte"))
             return NONE
         if name in ("add_char", "add_short", "add_three", "add_int"):
             under = name[4:]
             v = intarg()
-            if self.branch(v >= 253 ** X.INT_WIDTH[under]):
+            if self.branch(V.ra(self, "WA_INT_RAISES", I(X.INT_WIDTH[under]), v)):
                 raise PyExc("ValueError", node)
             append(V.enc(self, v, under))
             return NONE
@@ -590,7 +609,7 @@ class GenExec(Exec):
             L = self.as_int(args[1])
             padded = simp(self.truth(args[2])) if len(args) > 2 else z3.BoolVal(False)
             n = z3.Length(s.t)
-            bad = z3.Or(z3.And(padded, L < n), z3.And(z3.Not(padded), n != L))
+            bad = V.ra(self, "WA_FIXED_RAISES", n, L, padded)
             if self.branch(bad):
                 raise PyExc("ValueError", node)
             piece = V.sb(self, s.t, san)
@@ -710,11 +729,14 @@ class GenExec(Exec):
             raise PyExc("ValueError", node)
         self.fact(ok)
         ns = V.PARSES(cls)(st)
-        self.fact(z3.And(V.CH(ns) == V.CH(st), V.TOT(ns) <= V.TOT(st), V.TOT(ns) >= 0, V.REM(ns) >= 0,
-                         V.REM(ns) <= V.TOT(ns), V.POS(ns) >= V.POS(st)))
+        # the callee's proved summary (ProgramVerifier.verify_deserialize: mode-restored, summary[measure])
+        self.fact(z3.And(V.CH(ns) == V.CH(st), V.state_ok(self, ns), V.lex_le(ns, st)))
         prog = self.progress.get(cls)
         if prog:
-            self.fact(z3.Implies(V.REM(st) > 0, V.TOT(ns) < V.TOT(st)))
+            # a class that starts by reading at least one byte consumes data whenever data remains
+            # (the callee's proved summary[progress])
+            pre = V.REM(st) > 0 if prog == "always" else z3.And(V.CH(st), V.REM(st) > 0)
+            self.fact(z3.Implies(pre, V.lex_lt(ns, st)))
         o.fields["st"] = ns
         return ObjSym(V.PARSEV(cls)(st), cls)
 
